@@ -5,6 +5,8 @@ let rec parse nat_of_int (s : string) : Model.gid =
   | "SE2" -> Model.GSE2
   | "SO3" -> Model.GSO3
   | "SE3" -> Model.GSE3
+  | "SE23" -> Model.GSE23
+  | "SGal3" -> Model.GSGal3
   | _ when String.length s > 1 && s.[0] = 'R' ->
     Model.GRn (nat_of_int (int_of_string (String.sub s 1 (String.length s - 1))))
   | _ -> failwith ("unknown group " ^ s)
